@@ -20,6 +20,10 @@ CLAIMED = {
  'C05': dict(text="Bounded symbolic model checking of save/restore on the real code: for 15 reachable configurations (every integrator incl. unsynchronised and non-default options, states produced by 0-2 real steps, N=2/3) every persisted scalar — each entry of the library's own reb_binary_field_descriptor_list, every element of every persisted array (particles, p_jh, IAS15 arrays, p_int, dcrit, ...) and every documented user option even if absent from the table — is replaced by an unconstrained symbolic bit-vector; the real reb_simulation_save_to_file and reb_simulation_create_from_file are executed from LLVM IR on a model file system; R1: every location of the restored simulation holds the same term as the original; R2: saving the restored simulation again gives byte-identical content; R3 (fixed-step integrators, symbolic doubles, Kepler solver uninterpreted): one/two further real steps of original and restored give identical terms on every persisted location. Violations are replayed through the native library with real files.",
              note="UF/BITS domain; fields that save/load branch on (N, module selectors, archive version) keep concrete reachable values (listed in evidence); callbacks not persisted by design; continuation of adaptive/hybrid integrators is only exercised by an auxiliary native twin run (not solver-decided); continuation length <= 2 steps; WHFast512 and variational configurations outside (C17 covers var_config).",
              technique="SMT-based bounded symbolic execution of LLVM IR (llsym + z3, bit-vector/UF terms), table-driven round-trip and twin-run equality", ref='5/C05'),
+
+ 'C17': dict(text="Bounded symbolic model checking of copy and compare on the real code: on reachable states (8/17 configurations, all integrators, variational configuration) with every persisted location an unconstrained symbolic bit-vector, the real reb_simulation_copy is executed from LLVM IR and every persisted location of the copy is proved to hold the same term, no heap object is shared, reb_simulation_diff(copy, source)==0 in both directions on every path, stepping the copy leaves every byte reachable from the source unchanged and (fixed-step integrators) both evolve to identical terms. Compare exactness: for each persisted location in turn (representatives in quick, all in thorough) the copy receives a fresh symbolic value v and on every path of the real reb_simulation_diff the solver proves (result != 0) <=> (v differs bitwise from the original), walltime* fields excepted. Counterexamples are replayed natively (copy, poke, diff).",
+             note="UF/BITS with exact IEEE equality predicates on bit patterns; only the perturbed quantity may be NaN in a given query (others assumed not NaN); N=2; Kepler solver uninterpreted in the twin step; two known findings (NaN / signed zero in particle members, see known_findings.json).",
+             technique="SMT-based bounded symbolic execution of LLVM IR with path forking (llsym + z3), single-location perturbation", ref='5/C17'),
 }
 NA = {}
 checks = []
